@@ -377,3 +377,8 @@ def check_dup(case, ctx):
 SUBS = [Sub("grouping", check, strategy=case, quick=16000, thorough=250000),
         Sub("dupfields", check_dup, strategy=dup_case, quick=1500, thorough=20000)]
 KNOWN = {}
+
+# second use of one view object after its sources were edited (shared sub-check, see pv/reuse.py)
+from pv import reuse  # noqa: E402
+SUBS.append(reuse.sub(ID))
+RULE += reuse.RULE
